@@ -2,7 +2,7 @@
 
 Spec:
   {"reqs": [ {"kind": K, "a": int, "items": [int, ...], "ver": "1.0"|"1.1", "conn": null|"keep-alive"|"Keep-Alive"|"close",
-              "method": "GET"|"HEAD", "stream": bool, "ctype": bool}, ... ]}        1-4 requests on ONE connection
+              "method": "GET"|"HEAD", "stream": bool, "ctype": bool}, ... ]}        1-4 requests on ONE connection (thorough tier: 1-6)
 
 Request i is sent only after the server became quiescent on request i-1 (no pipelining) and only if the server
 did not close the connection.  Every request carries ``?i=<n>``; the generated controller looks its plan up
@@ -222,7 +222,7 @@ def expectation(p, n):
     # (X-Req is then optional, but must be right if present); Content-Type is only asserted for application bodies
     failure = k in ('raise', 'raisehttp', 'yieldraise', 'filterraise', 'raiseredirect', 'missing')
     hdrs = [('x-req?' if failure else 'x-req', str(n))]
-    if p['ctype'] and k in ('str', 'bytes', 'empty', 'big', 'list', 'yields', 'file', 'gen', 'push', 'resp', 'status', 'nobody'):
+    if p['ctype'] and k in ('str', 'bytes', 'empty', 'big', 'list', 'yields', 'file', 'gen', 'push', 'resp', 'status'):
         hdrs.append(('content-type', 'text/plain; charset=utf-8'))
     st_, body = (200,), None
     if k == 'str':
@@ -296,7 +296,7 @@ def wants_close(p):
 
 class C15(Prop):
     id = 'C15'
-    rule = ('sequences of 1-4 requests on one connection of a socket-less circuits.web server; each request draws '
+    rule = ('sequences of 1-4 (thorough: 1-6) requests on one connection of a socket-less circuits.web server; each request draws '
             'handler result kind (23 kinds: str/bytes/empty/100 kB/list/yielding handler/file sizes 0..10000/serve_file/'
             'generator body/pushed stream/explicit Response/status with body/204,304,101 with and without body/errors/'
             'raise, also after yields/redirect) x HTTP 1.0|1.1 x Connection absent|keep-alive|close x GET|HEAD x stream on|off x '
@@ -359,6 +359,8 @@ class C15(Prop):
 
     # ------------------------------------------------------------------ run
     def execute(self, spec):
+        if not spec['reqs']:
+            return Result(True)
         return self._judge(*self._run(spec))
 
     def _run(self, spec):
